@@ -4,8 +4,8 @@
    C04_set_used: releasing raises it by one); the two block-count computations used when a file is created and when
    its blocks are released agree (C01_geometry_realsize).  'allocated = reachable + reserved at every quiescent point'
    and 'create then delete restores the free count' are judged per explored history by the extracted decoder. *)
-From Coq Require Import ZArith List Bool.
-From ADF Require Import CPrelude Generated.Layout Generated.Leaf Model.Bitmap Proofs.BitmapP Proofs.GeometryP Model.FileMap Proofs.FileMapP.
+From Coq Require Import ZArith List Bool Lia.
+From ADF Require Import CPrelude Generated.Layout Generated.Leaf Model.Bitmap Proofs.BitmapP Proofs.ConserveP Proofs.GeometryP Model.FileMap Proofs.FileMapP.
 From Coq Require Import Permutation.
 From ADF Require Model.FileIO Proofs.FileIOP.
 Import ListNotations.
@@ -50,7 +50,31 @@ Theorem C05_truncate_frees_exactly_the_cut_blocks : forall bs ofs key, 0 < bs ->
   Permutation rem (skipn (Z.to_nat (FileIO.size2db new bs)) L ++ skipn (Z.to_nat (FileIO.db2ext (FileIO.size2db new bs))) E).
 Proof. exact FileIOP.fio_truncate_shrink_frees. Qed.
 
+(* whole sets of blocks (any operation's takes and releases): taking any set of distinct free blocks lowers the count by exactly their
+   number, releasing any set of distinct used blocks raises it by their number; with C05_truncate_frees_exactly_the_cut_blocks: a shrinking
+   truncation raises the free count by exactly the number of blocks the file occupied beyond its new size *)
+Theorem C05_count_after_taking : forall b last l, NoDup l -> (forall x, In x l -> 2 <= x <= last /\ is_free b x = true) ->
+  count_free (fold_left set_used l b) last = count_free b last - Z.of_nat (length l).
+Proof. exact count_after_taking. Qed.
+
+Theorem C05_count_after_releasing : forall b last l, NoDup l -> (forall x, In x l -> 2 <= x <= last /\ is_free b x = false) ->
+  count_free (fold_left set_free l b) last = count_free b last + Z.of_nat (length l).
+Proof. exact count_after_releasing. Qed.
+
+(* take a set and give it back: the count is what it was *)
+Theorem C05_take_then_release_restores : forall b last l, NoDup l -> (forall x, In x l -> 2 <= x <= last /\ is_free b x = true) ->
+  count_free (fold_left set_free l (fold_left set_used l b)) last = count_free b last.
+Proof.
+  intros b last l Hnd H. rewrite count_after_releasing.
+  - rewrite count_after_taking by assumption. lia.
+  - exact Hnd.
+  - intros x Hx. split; [apply H; exact Hx|]. exact (taken_are_used b last l H x Hx).
+Qed.
+
 Print Assumptions C05_count.
+Print Assumptions C05_count_after_taking.
+Print Assumptions C05_count_after_releasing.
+Print Assumptions C05_take_then_release_restores.
 Print Assumptions C05_truncate_frees_exactly_the_cut_blocks.
 Print Assumptions C05_count_after_alloc.
 Print Assumptions C05_blocks_of_file.
